@@ -11,6 +11,7 @@ import BezierVerif.Model.Sample
 import BezierVerif.Model.Fit
 import BezierVerif.Model.Clip
 import BezierVerif.Model.Lookup
+import BezierVerif.Model.Inter
 import BezierVerif.Gen.Box
 
 namespace ModelDriver
@@ -346,6 +347,23 @@ def handle (name : String) (args : List String) : String :=
       let dist (t : ℚ) : ℚ := let p := s.eval t; ratSqrt ((p.x - qx) * (p.x - qx) + (p.y - qy) * (p.y - qy))
       "ok " ++ showRat (Lookup.cubicTOfPoint dist samples)
     | _, _, _ => "bad-args"
+  | "inter.run" =>
+    -- inter.run <self> <other> <aligned> | cardano roots...   (aligned = a line when both operands are lines)
+    match parseSegs args with
+    | some ([sf, ot, al], rest) =>
+      match (rest.drop 1).mapM parseRat with
+      | some cardano =>
+        "ok " ++ showRats ((Inter.intersections ratSqrt sf ot al cardano).flatMap fun p => [p.1, p.2])
+      | none => "bad-args"
+    | _ => "bad-args"
+  | "inter.roots" =>
+    -- inter.roots <aligned curve> | cardano roots...   (`_curve_line_intersections_t`)
+    match parseSegs args with
+    | some ([al], rest) =>
+      match (rest.drop 1).mapM parseRat with
+      | some cardano => "ok " ++ showRats (Inter.curveLineT ratSqrt al cardano)
+      | none => "bad-args"
+    | _ => "bad-args"
   | _ => "nomodel"
 
 end ModelDriver
